@@ -9,8 +9,9 @@ import ScriggoV.Model.ExprPP
 
 `<expr>` is prefix notation with fixed arity: `I n` identifier `x<n>`, `L <Kind> n` literal,
 `U <Op> e`, `B <Op> l r` (`<Op>` = the Go constant without `Operator`), `C <0|1> <k> f a1 … ak`
-call (variadic flag, number of arguments), `X e i` index, `S e n` selector `.x<n>`, `P e`
-one more pair of parentheses. `<tokens>`: `i<n>`, `n<n>`, `( ) [ ] . , ...` and the operator
+call (variadic flag, number of arguments), `X e i` index, `Z <0|1> e <opt> <opt> <opt>` slicing
+(`O0` / `O1 e`), `S e n` selector `.x<n>`, `T e t` type assertion, `D l r` default, `TS t`, `TA <opt> t`,
+`TM k v`, `TC <Direction> t`, `TI` types, `P e` one more pair of parentheses. `<tokens>`: `i<n>`, `n<n>`, `( ) [ ] . , ...` and the operator
 spellings. -/
 namespace ScriggoV.Drv.C27
 open ScriggoV ScriggoV.ExprPP ScriggoV.Gen.Precedence
